@@ -126,8 +126,42 @@ func (c *Ctx) havocCall(st *State, sig *types.Signature, args []*Val, prefix str
 			}
 		}
 		c.W.havocMutableGlobals(c, st)
+		for _, a := range args {
+			if a != nil && a != poison && typeMayHoldWriter(a.Typ, 0) {
+				c.havocGhost(st)
+				break
+			}
+		}
 	}
 	return c.freshResults(st, sig, prefix)
+}
+
+// typeMayHoldWriter: a value of this type can give access to an io.Writer
+// (an interface, a function, or something that contains one).
+func typeMayHoldWriter(t types.Type, depth int) bool {
+	if depth > 4 {
+		return true
+	}
+	switch u := t.Underlying().(type) {
+	case *types.Basic:
+		return false
+	case *types.Interface, *types.Signature, *types.Map, *types.Chan:
+		return true
+	case *types.Pointer:
+		return typeMayHoldWriter(u.Elem(), depth+1)
+	case *types.Slice:
+		return typeMayHoldWriter(u.Elem(), depth+1)
+	case *types.Array:
+		return typeMayHoldWriter(u.Elem(), depth+1)
+	case *types.Struct:
+		for i := 0; i < u.NumFields(); i++ {
+			if typeMayHoldWriter(u.Field(i).Type(), depth+1) {
+				return true
+			}
+		}
+		return false
+	}
+	return true
 }
 
 func (c *Ctx) freshResults(st *State, sig *types.Signature, prefix string) *Val {
@@ -809,7 +843,9 @@ func (c *Ctx) writerWrite(st *State, recv *Val, p *Val, call *ssa.CallCommon) *V
 		na = Lambda(i, Ite(in, Select(src, Add(l[1], Sub(i, logLen))), Select(logArr, i)))
 	}
 	c.assume(st.pc, ULt(logLen, Const(64, 1<<50)))
-	newLog := &Val{Typ: g.Typ, L: []*Term{Ite(okv, na, Fresh("wlogerr", logArr.S)), Ite(okv, Add(logLen, n), Fresh("wlenerr", BV(64)))}}
+	// a failed Write may have written a prefix: the log stays append-only
+	failed := c.appendedLog(st, g)
+	newLog := &Val{Typ: g.Typ, L: []*Term{Ite(okv, na, failed.L[0]), Ite(okv, Add(logLen, n), failed.L[1])}}
 	st.ghost["wlog"] = newLog
 	errv := c.havocVal(st, res.At(1).Type(), "werr")
 	c.assume(st.pc, Eq(okv, Eq(errv.L[0], Const(32, 0))))
